@@ -381,6 +381,9 @@ def wicks(expr, rules: Rules = None, simplify_kronecker_deltas: bool = False):
 
     # break up any NO-objects, and evaluate commutators
     expr = expr.doit(wicks=True).expand()
+    # NO.doit splits operators with a general index into an occupied and a
+    # virtual contribution using plain sympy Dummy and KroneckerDelta objects.
+    expr = _import_sympy_dummies(expr)
 
     # two adjacent identical operators are combined to a Pow object by sympy.
     # The square of a fermionic operator vanishes.
@@ -433,6 +436,31 @@ def wicks(expr, rules: Rules = None, simplify_kronecker_deltas: bool = False):
         raise TypeError(f"Rules needs to be of type {Rules}")
 
     return rules.apply(Expr(result)).sympy
+
+
+def _import_sympy_dummies(expr):
+    """
+    Replaces plain sympy Dummy indices and KroneckerDeltas that are
+    introduced by sympy when normal ordered operator strings containing
+    general indices are evaluated by Index and KroneckerDelta instances.
+    """
+    from sympy import Dummy
+    from sympy.functions.special.tensor_functions import (
+        KroneckerDelta as SympyKroneckerDelta
+    )
+
+    dummies = [s for s in expr.atoms(Dummy) if not isinstance(s, Index)]
+    if not dummies:
+        return expr
+    sub = {}
+    for s in dummies:
+        assumptions = {
+            key: True for key in ("below_fermi", "above_fermi")
+            if s.assumptions0.get(key)
+        }
+        sub[s] = Index(s.name, **assumptions)
+    expr = expr.xreplace(sub)
+    return expr.replace(SympyKroneckerDelta, KroneckerDelta).expand()
 
 
 def _contract_operator_string(op_string: list) -> Add:
